@@ -493,3 +493,34 @@ Proof.
     apply negb_true_iff in H1. rewrite existsb_names in H1.
     unfold no_star in Hs. apply String.eqb_eq in Hs. rewrite Hs. exact H1.
 Qed.
+
+(* ---------- non-vacuity ---------- *)
+Example container_ops_example :
+  let self := mkParam "self" None PK DNone in let a := mkParam "a" (Some 1%Z) PK (DExpr 5) in
+  let r := mkParam "r" None VP (DStr "()") in let k := mkParam "k" None KO DNone in
+  run_ops c_step [self; a; r; k]
+    [ODel (KStr "self"); OGet (KStr "a"); OGet (KStr "*r"); OGet (KInt (-1)); OContains "self"; OGet (KStr "self");
+     OAdd a; OSet (KStr "z") (mkParam "z" None KO DNone); ODel (KInt 7); OLen] =
+  ([BUnit None; BParam (Ok a); BParam (Ok r); BParam (Ok k); BBool false; BParam (Err "KeyError");
+    BUnit (Some "ValueError"); BUnit None; BUnit (Some "IndexError"); BLen 4],
+   [a; r; k; mkParam "z" None KO DNone]).
+Proof. reflexivity. Qed.
+
+(* the hypotheses of delitem_keeps_other_names / delitem_by_name_then_absent are satisfiable: the usual `del parameters["self"]` *)
+Example delete_self_example :
+  let l := [mkParam "self" None PK DNone; mkParam "a" None PK DNone; mkParam "b" None KO (DExpr 1)] in
+  nodupb (names_of l) = true /\
+  c_delitem (KStr "self") l = Ok [mkParam "a" None PK DNone; mkParam "b" None KO (DExpr 1)] /\
+  deleted_position (KStr "self") l = Some 0 /\
+  c_delitem (KInt 0) l = c_delitem (KStr "self") l.
+Proof. repeat split; reflexivity. Qed.
+
+Example bound_view_example :
+  let a := mkArgs [mkArg "self" None] [mkArg "x" (Some 3%Z)] None [mkArg "k" None] [Some 9%Z] None [7%Z] in
+  wf a = true /\
+  get_parameters a = Ok [mkParam "self" None PO DNone; mkParam "x" (Some 3%Z) PK (DExpr 7); mkParam "k" None KO (DExpr 9)] /\
+  griffe_bound [mkParam "self" None PO DNone; mkParam "x" (Some 3%Z) PK (DExpr 7); mkParam "k" None KO (DExpr 9)] =
+    Ok [mkParam "x" (Some 3%Z) PK (DExpr 7); mkParam "k" None KO (DExpr 9)] /\
+  cpython_bound [mkParam "k" None KO DNone] = Err "ValueError" /\
+  cpython_bound [mkParam "r" None VP (DStr "()")] = Ok [mkParam "r" None VP (DStr "()")].
+Proof. repeat split; reflexivity. Qed.
